@@ -19,7 +19,9 @@ RULE = (
     "[the same over the factor alphabet {a, N, c} for every N among the 26 names of formulaic's transform namespace used "
     "as a plain column (scale, lag, log, C, np, ...), 5 other identifiers, 2 back-quoted names, and 4 names used both as "
     "a column and as a function N(a) in the same formula; and over 17 degenerate frames: each of a, b, c in turn all zero "
-    "(float, int), constant 1, int dtype, partly zero, plus all-int and all-zero frames] "
+    "(float, int), constant 1, int dtype, partly zero, plus all-int and all-zero frames; over terms with a literal "
+    "numeric factor (2:a, a:2.5:b, ...); and, for specs fitted on a training frame with the stateful factors center(a) "
+    "and scale(a), ModelSpec.differentiate materialized on the training frame and on other data] "
     "(h = 1 and h = 1/2) of the product of the original term's factor columns.  Non-trivial = at least one term "
     "whose derivative the property specifies and wrt non-empty; counted once per (formula, ordering, wrt, path, rank)."
 )
@@ -454,18 +456,37 @@ def drv_names_numeric(c, ctx, col):
     drv_numeric(c, role_ctx(role, name, ctx), col)
 
 
+OTHER_DATA = {"a": [1.0, 4.0, 9.0], "b": [2.0, -3.0, 5.0], "c": [1.0, 2.0, 4.0], "y": [0.0, 1.0, 2.0]}   # 3 rows, other values
+EVAL_FRAMES = [("training-data", DATA), ("other-data", OTHER_DATA)]
+TERMS_STATEFUL = [t for r in (1, 2, 3) for t in itertools.combinations(["center(a)", "scale(a)", "b", "c"], r)]
+
+
+def with_fitted_columns(train, other):
+    """reference values of the stateful factors on `other`, with the state (mean, sd) taken from `train`"""
+    n = len(train["a"])
+    mean = sum(train["a"]) / n
+    sd = (sum((x - mean) ** 2 for x in train["a"]) / (n - 1)) ** 0.5
+    ref = dict(other)
+    ref["center(a)"] = [x - mean for x in other["a"]]
+    ref["scale(a)"] = [(x - mean) / sd for x in other["a"]]
+    return ref
+
+
 def drv_fitted(c, ctx, col):
-    """ModelSpec.differentiate on the spec attached to a materialized matrix (the usual way to obtain a spec)"""
-    from formulaic import Formula
+    """ModelSpec.differentiate on the spec attached to a materialized matrix (the usual way to obtain a spec): fit on the
+    training frame, differentiate the fitted spec, materialize the derivative on the training frame or on OTHER data.
+    Stateful factors that survive differentiation (center(a) in d(center(a):b)/db) must keep the training state."""
+    import pandas
 
     rhs, terms, icpt = choose_formula(c, ctx)
     wrt = choose_wrt(c, ctx)
-    efr = not c.flag()
-    df = frame()
+    efr = c.pick(ctx.get("ranks", [True, False]))
+    label, other = c.pick(ctx.get("eval_frames", EVAL_FRAMES[:1]))
+    df, df_other = frame(DATA), frame(other)
     F = formula_for(rhs, "none")
-    key = "fitted-spec :: %r wrt=%s ensure_full_rank=%s" % (rhs, list(wrt), efr)
-    detail = {"formula": rhs, "wrt": list(wrt), "ensure_full_rank": efr,
-              "repro": "Formula(%r, _ordering='none').get_model_matrix(df, ensure_full_rank=%s).model_spec.differentiate(%s).get_model_matrix(df)"
+    key = "fitted-spec :: %r wrt=%s ensure_full_rank=%s materialized-on=%s" % (rhs, list(wrt), efr, label)
+    detail = {"formula": rhs, "wrt": list(wrt), "ensure_full_rank": efr, "training_data": DATA, "materialized_on": other,
+              "repro": "Formula(%r, _ordering='none').get_model_matrix(train, ensure_full_rank=%s).model_spec.differentiate(%s).get_model_matrix(other)"
                        % (rhs, efr, ", ".join(repr(w) for w in wrt))}
     ms = F.get_model_matrix(df, ensure_full_rank=efr).model_spec
     written = (["1"] if icpt else []) + [":".join(t) for t in terms]
@@ -476,20 +497,70 @@ def drv_fitted(c, ctx, col):
     col.interesting()
     try:
         md = ms.differentiate(*wrt)
-        mm = md.get_model_matrix(df)
+        mm = md.get_model_matrix(df_other)
     except Exception as e:
         col.violation(key, dict(detail, error="%s: %s" % (type(e).__name__, str(e)[:200])), sig="fitted-spec-derivative-not-materializable")
         return
+    ref = with_fitted_columns(DATA, other)
     values = numpy.asarray(mm, dtype=float)
-    for t_written, dterm, w in zip(written, list(md.formula), want):
+    # differential form: the ORIGINAL fitted spec (which keeps the training state) at x and x + h on the same data
+    impl = None
+    if len(wrt) == 1 and wrt[0] in other:
+        shifted = dict(other)
+        shifted[wrt[0]] = [x + 1 for x in other[wrt[0]]]
+        try:
+            m0, m1 = ms.get_model_matrix(df_other), ms.get_model_matrix(pandas.DataFrame(shifted))
+            impl = (m0, m1, numpy.asarray(m0, dtype=float), numpy.asarray(m1, dtype=float))
+        except Exception as e:
+            col.violation(key, dict(detail, error="%s: %s" % (type(e).__name__, str(e)[:200])), sig="fitted-spec-original-not-materializable")
+            return
+    for t_written, term, dterm, w in zip(written, list(ms.formula), list(md.formula), want):
         if w[0] != "TERM":
             continue
-        fd1 = CR.finite_difference(CR.split_term(t_written), wrt, DATA, 1.0)
+        fd1 = CR.finite_difference(CR.split_term(t_written), wrt, ref, 1.0)
         idx = list(mm.model_spec.term_indices.get(dterm, []))
-        if len(idx) != 1 or idx[0] >= values.shape[1] or not close_cols(values[:, idx[0]].tolist(), fd1):
-            col.violation(key, dict(detail, term=t_written, indices=idx, columns=list(mm.columns)), sig="fitted-spec-wrong-derivative-column")
+        d = dict(detail, term=t_written, derivative_term=str(dterm), indices=idx, columns=list(mm.columns), want_column=fd1)
+        if len(idx) != 1 or idx[0] >= values.shape[1]:
+            col.violation(key, d, sig="fitted-spec-wrong-derivative-column")
             return
+        got = values[:, idx[0]].tolist()
+        if not close_cols(got, fd1):
+            col.violation(key, dict(d, got_column=got), sig="fitted-spec-wrong-derivative-column")
+            return
+        if impl is not None:
+            m0, m1, v0, v1 = impl
+            i0, i1 = list(m0.model_spec.term_indices.get(term, [])), list(m1.model_spec.term_indices.get(term, []))
+            if len(i0) == 1 and len(i1) == 1:
+                fd = (v1[:, i1[0]] - v0[:, i0[0]]).tolist()
+                if not close_cols(got, fd):
+                    col.violation(key, dict(d, got_column=got, difference_of_original_spec=fd), sig="fitted-spec-derivative-differs-from-original-difference")
+                    return
+                col.count("original-differences-agree")
     col.count("columns-agree")
+
+
+# literal numeric factors: 2:a, a:2.5:b, ...
+
+LITERALS = ["2", "2.5", "5"]
+_LIT_CTX = {}
+
+
+def literal_ctx(lit, base):
+    key = (lit, id(base))
+    if key not in _LIT_CTX:
+        terms = [t for r in (1, 2, 3) for t in itertools.combinations([lit, "a", "b", "c"], r) if t != (lit,)]
+        sub = dict(base)
+        sub.update(terms=terms, reverse_factors=True)
+        _LIT_CTX[key] = sub
+    return _LIT_CTX[key]
+
+
+def drv_literal_symbolic(c, ctx, col):
+    drv_symbolic(c, literal_ctx(c.pick(ctx["literals"]), ctx), col)
+
+
+def drv_literal_numeric(c, ctx, col):
+    drv_numeric(c, literal_ctx(c.pick(ctx["literals"]), ctx), col)
 
 
 # ---------------------------------------------------------------------------
@@ -547,6 +618,16 @@ def subchecks(tier, seed):
                                                               "ranks": [True]},
                         shard_depth=2, bounds={"names": "all but the function role (%d)" % (len(NAME_ROLES) - len(FUNC_NAMES)), "max_terms": 1, "term_pool": 7, "wrt_max_len": 2, "intercept": "on",
                                                "ensure_full_rank": [True], "paths": ["formula"], "data": "column N holds b's values"}))
+        subs.append(Sub("literal-symbolic", drv_literal_symbolic, {"literals": LITERALS[:2], "n": 2, "wrt": 2, "orderings": ["none"], "sides": ["simple"]},
+                        shard_depth=3, bounds={"literal_factor": LITERALS[:2], "factors": "L, a, b, c (every product of <= 3 except the lone literal)",
+                                               "factor_order": ["literal first", "reversed"], "max_terms": 2, "term_pool": 13, "wrt_max_len": 2}))
+        subs.append(Sub("literal-numeric", drv_literal_numeric, {"literals": LITERALS[:2], "n": 1, "wrt": 2, "paths": ["formula"]},
+                        shard_depth=3, bounds={"literal_factor": LITERALS[:2], "max_terms": 1, "term_pool": 13, "factor_order": ["literal first", "reversed"],
+                                               "wrt_max_len": 2, "ensure_full_rank": [True, False], "paths": ["formula"]}))
+        subs.append(Sub("fitted-stateful", drv_fitted, {"terms": TERMS_STATEFUL, "n": 1, "wrt": 2, "ranks": [True], "eval_frames": EVAL_FRAMES},
+                        shard_depth=2, bounds={"factors": "center(a), scale(a), b, c", "max_terms": 1, "term_pool": 14, "wrt_max_len": 2,
+                                               "ensure_full_rank": [True], "fit_on": "training frame (4 rows)",
+                                               "materialized_on": ["training frame", "other frame (3 rows, other values)"]}))
         subs.append(Sub("fitted-spec", drv_fitted, {"terms": TERMS_PLAIN, "n": 1, "wrt": 1}, shard_depth=2,
                         bounds={"max_terms": 1, "term_pool": 7, "wrt_max_len": 1}))
     else:
@@ -587,6 +668,18 @@ def subchecks(tier, seed):
         subs.append(Sub("names-paths", drv_names_numeric, {"roles": NAME_ROLES, "n": 1, "wrt": 2, "paths": PATHS[1:], "icpts": [True]},
                         shard_depth=2, bounds={"names": "all but the function role (%d)" % (len(NAME_ROLES) - len(FUNC_NAMES)), "max_terms": 1, "wrt_max_len": 2, "intercept": "on",
                                                "ensure_full_rank": [True, False], "paths": PATHS[1:]}))
+        subs.append(Sub("literal-symbolic", drv_literal_symbolic, {"literals": LITERALS, "n": 2, "wrt": 3, "orderings": ["none", "degree"],
+                                                                    "sides": ["simple", "y"]},
+                        shard_depth=3, bounds={"literal_factor": LITERALS, "factors": "L, a, b, c (every product of <= 3 except the lone literal)",
+                                               "factor_order": ["literal first", "reversed"], "max_terms": 2, "term_pool": 13, "wrt_max_len": 3,
+                                               "orderings": ["none", "degree"], "sides": ["simple", "y ~"]}))
+        subs.append(Sub("literal-numeric", drv_literal_numeric, {"literals": LITERALS, "n": 1, "wrt": 3, "paths": PATHS, "outputs": ["pandas", "numpy"]},
+                        shard_depth=3, bounds={"literal_factor": LITERALS, "max_terms": 1, "term_pool": 13, "factor_order": ["literal first", "reversed"],
+                                               "wrt_max_len": 3, "ensure_full_rank": [True, False], "paths": PATHS, "outputs": ["pandas", "numpy"]}))
+        subs.append(Sub("fitted-stateful", drv_fitted, {"terms": TERMS_STATEFUL, "n": 2, "wrt": 2, "eval_frames": EVAL_FRAMES},
+                        shard_depth=2, bounds={"factors": "center(a), scale(a), b, c", "max_terms": 2, "term_pool": 14, "wrt_max_len": 2,
+                                               "ensure_full_rank": [True, False], "fit_on": "training frame (4 rows)",
+                                               "materialized_on": ["training frame", "other frame (3 rows, other values)"]}))
         subs.append(Sub("fitted-spec", drv_fitted, {"terms": TERMS_PLAIN, "n": 2, "wrt": 2}, shard_depth=2,
                         bounds={"max_terms": 2, "term_pool": 7, "wrt_max_len": 2}))
     return subs
